@@ -41,9 +41,9 @@ def lattice(tier):
     P['lj'] = list(itertools.product([-0.5, 0, 0.2, 12], [0.5, 2.5, 3.4, -1.5]))
     P['morse'] = list(itertools.product([-0.7, 0, 0.5, 1.8, 6], [-1.0, 0, 2, 3.5], [-0.4, 0, 0.6, 50.0]))
     polys = []
-    base = [1.5, -2.0, 0.5, 0.1, -0.03, 0.004, -0.0005, 0.00006, -0.000007]
-    alt = [-3, 2, 0, -0.7, 0.02, 0, 0.0003, -0.00001, 0.000002]
-    for order in range(0, 9):
+    base = [1.5, -2.0, 0.5, 0.1, -0.03, 0.004, -0.0005, 0.00006, -0.000007, 0.0000008, -0.00000009, 0.00000001, -1e-9, 1e-10, -1e-11]
+    alt = [-3, 2, 0, -0.7, 0.02, 0, 0.0003, -0.00001, 0.000002, 0, -0.0000003, 0.00000002, 0, 0, 1e-10]
+    for order in range(0, 15):
         polys.append(tuple(base[:order + 1]))
         polys.append(tuple(alt[:order + 1]))
         polys.append(tuple([0.0] * order + [2.5]))
@@ -163,13 +163,15 @@ def route_values(name, vecs, rs):
         lines = ['[Tabulation]', 'target : LAMMPS', 'nr : 3', 'cutoff : 1.0', '', '[Pair]']
         forms = ['[Potential-Form]']
         for i, p in enumerate(vecs):
+            # spelling of the call: plain; blank before the bracket; upper case; bracket on a continuation line
+            call = ['as.%s(' % name, 'as.%s (' % name, 'AS.%s(' % name.upper(), 'as.%s\n    (' % name, 'as.%s(\n    ' % name][(i // 2) % 5]
             if i % 2 == 0 or not p:
                 args = ''.join(', ' + X.num(float(v)) for v in p)
-                forms.append('w%d(r) = as.%s(r%s)' % (i, name, args))
+                forms.append('w%d(r) = %sr%s)' % (i, call, args))
                 lines.append('S%d-Q : w%d' % (i, i))
             else:
                 names = ['p%d' % k for k in range(len(p))]
-                forms.append('w%d(r, %s) = as.%s(r, %s)' % (i, ', '.join(names), name, ', '.join(names)))
+                forms.append('w%d(r, %s) = %sr, %s)' % (i, ', '.join(names), call, ', '.join(names)))
                 lines.append('S%d-Q : w%d %s' % (i, i, ' '.join(X.num(v) for v in p)))
         tab = R.config_read('\n'.join(lines + [''] + forms) + '\n')
         pots = {pt.speciesA: pt for pt in tab.potentials}
